@@ -117,14 +117,16 @@ Record shape := {
   s_gz_optional : bool;       (* both patterns end in (\.gz)? *)
   s_append : bool;            (* FileSink and rotate() open with QIODevice::Append *)
   s_lists_hidden : bool;      (* both directory scans pass QDir::Files | QDir::Hidden (a log file named .app.log has hidden rotated files) *)
-  s_name_onepass : bool       (* generateRotatedFileName substitutes base, date, index, suffix in ONE arg() call
+  s_name_onepass : bool;      (* generateRotatedFileName substitutes base, date, index, suffix in ONE arg() call
                                  (chained .arg() calls would re-substitute a place marker such as %3 inside the base name) *)
+  s_date_ascii : bool         (* the date in names and patterns is date.toString(Qt::ISODate): ASCII digits in every locale
+                                 (toString("yyyy-MM-dd") uses the system locale's native digits, which \d{4} rejects) *)
 }.
 Definition std_shape : shape := {|
   s_victim := VKName; s_keep_off := 1; s_size_strict := true; s_size_nonempty := true; s_newline := 1;
   s_one_disables := true; s_le0_keeps := true; s_index_max1 := true; s_name_by_cur := true;
   s_anchored := true; s_escaped := true; s_gz_optional := true; s_append := true;
-  s_lists_hidden := true; s_name_onepass := true |}.
+  s_lists_hidden := true; s_name_onepass := true; s_date_ascii := true |}.
 Definition vkey_eqb (a b : vkey) : bool :=
   match a, b with VKName, VKName => true | VKMtime, VKMtime => true | _, _ => false end.
 Definition shape_eqb (a b : shape) : bool :=
@@ -134,7 +136,8 @@ Definition shape_eqb (a b : shape) : bool :=
   && eqb (s_index_max1 a) (s_index_max1 b) && eqb (s_name_by_cur a) (s_name_by_cur b)
   && eqb (s_anchored a) (s_anchored b) && eqb (s_escaped a) (s_escaped b)
   && eqb (s_gz_optional a) (s_gz_optional b) && eqb (s_append a) (s_append b)
-  && eqb (s_lists_hidden a) (s_lists_hidden b) && eqb (s_name_onepass a) (s_name_onepass b).
+  && eqb (s_lists_hidden a) (s_lists_hidden b) && eqb (s_name_onepass a) (s_name_onepass b)
+  && eqb (s_date_ascii a) (s_date_ascii b).
 
 (* ------------------------------------------------------------------ directory *)
 (* a record: the bytes written (payload ++ "\n") and, as ghost data, its global sequence number and
